@@ -13,6 +13,7 @@ import (
 	"strings"
 	"sync"
 	"sync/atomic"
+	"time"
 
 	"github.com/coredhcp/coredhcp/plugins/allocators"
 	"github.com/coredhcp/coredhcp/plugins/allocators/bitmap"
@@ -708,7 +709,9 @@ func (m *model) runConcurrent(a allocators.Allocator, scripts [][]ConcOp) *core.
 		}(g)
 	}
 	close(start)
-	wg.Wait()
+	if !core.WaitTimeout(&wg, nil, 60*time.Second) {
+		return core.Violate(m.c.Mode+"/wedged", "concurrent phase: allocator calls did not return within 60 s")
+	}
 	if viol != nil {
 		return viol
 	}
